@@ -522,7 +522,7 @@ def conversion_oracle(ctx, s, sp, groups, levels, held, before, ans, replay):
 
 
 def conversion_case(ctx, nbits, sizes, bit_order, perm_bits, int_levels, dict_order, tts,
-                    warm=False, garbage=True, label='conv'):
+                    warm=False, garbage=True, label='conv', dyn=False):
     """One `bdd_to_mdd` call on a manager holding the functions `tts` (over Space of the bits).
 
     `perm_bits`: the bits in the order they are dealt to the integer variables;
@@ -538,6 +538,11 @@ def conversion_case(ctx, nbits, sizes, bit_order, perm_bits, int_levels, dict_or
     levels = {INT_NAMES[k]: int_levels[k] for k in range(len(sizes))}
     s = Session(ctx)
     s.new(0, bit_order)
+    if dyn:
+        # dynamic reordering enabled with a low threshold: `cofactor` is a decorated method
+        s.op(0, 'configure', 1)
+        s.op(0, 'set_last_len', rng.randint(1, 6))
+        ctx.count('conv:dynamic-reordering-on')
     if warm:
         # a used manager: freed and re-used numbers, swaps
         from checks_core import warm_up
@@ -635,8 +640,11 @@ def check_conversions(ctx, budget):
             groups.append((INT_NAMES[k], perm_bits[pos:pos + sz]))
             pos += sz
         tts = [random_function(rng, sp, groups) for _ in range(rng.randint(1, 3))]
+        # dynamic reordering only on fresh managers: the warm-up history does not track which of its
+        # references survive an implicit reordering (a release of a dead number would steal a count)
+        warm = rng.random() < 0.35
         s = conversion_case(ctx, nbits, sizes, bit_order, perm_bits, int_levels, dict_order, tts,
-                            warm=(rng.random() < 0.35), label='sampled')
+                            warm=warm, label='sampled', dyn=(not warm and rng.random() < 0.2))
         ctx.add_session(s, MDD_SECTIONS, 'C15 conversion (sampled)')
         s.close()
         n += 1
